@@ -18,7 +18,7 @@ EXPLANATION = (
     'when the whole parity class is in use; (d) every request entry point tests the incoming id against the table '
     'before it registers a handler, and the test raises the REJECTED error without touching the table. '
     'Not decided: nothing essential - the clauses hold per operation.')
-EXPLANATION_ADDED = ('(e) a new request is never offered to the stream table before its handle_* method (shared routing rule) and the table is written only after id 0 was refused; (f) the successor of the id cursor visits every id of its parity class: the masked form (cursor + 2) & (2^31-1), or advance-compare-wrap whose largest kept value is the largest id of the class for both parities and whose wrap target is the first id.')
+EXPLANATION_ADDED = ('(e) a new request is never offered to the stream table before its handle_* method (shared routing rule) and the table is written only after id 0 was refused; (f) the successor of the id cursor visits every id of its parity class: the masked form (cursor + 2) & (2^31-1), or advance-compare-wrap whose largest kept value is the largest id of the class for both parities and whose wrap target is the first id; (g) the allocator object is created by the per-connection reset only, never by stop_all_streams(), which applications call on live connections.')
 EXPLANATION = EXPLANATION.replace(' Not decided', ' ' + EXPLANATION_ADDED + ' Not decided', 1) \
     if ' Not decided' in EXPLANATION else EXPLANATION + ' ' + EXPLANATION_ADDED
 ASSUMPTIONS = COMMON_ASSUMPTIONS
@@ -161,7 +161,7 @@ def rule_a(ctx):
     reset = ctx.repo.func('rsocket.rsocket_base:RSocketBase._reset_internals')
     for cls, want in ((slots.RSocketClient, 1), (slots.RSocketServer, 2)):
         ok = False
-        for p in ctx.paths(reset, cls, no_inline={'stop_all_streams'}):
+        for p in ctx.paths(reset, cls, inline_depth=2, no_inline={'_fail_unsent_frames'}):
             for e in p.events:
                 if e.kind == 'new' and e.data['cls'] is sc:
                     a = e.data['args'][0] if e.data.get('args') else None
@@ -499,6 +499,32 @@ def rule_f(ctx):
                 ok, detail or '%s: every id of either parity up to 2^31-1 is reached before the cursor repeats' % form)
 
 
+def rule_g(ctx):
+    """The id allocator of a connection lives as long as the connection: the object that holds the cursor and the
+    table of live streams is created by the per-connection reset only.  stop_all_streams() - public, and called by
+    applications on a connection that stays up (from a keepalive-timeout handler, say) - must not replace it:
+    afterwards the ids would restart at the first id while the peer may still hold streams under those ids."""
+    rep = ctx.report
+    slots = ctx.slots
+    sc = slots.StreamControl
+    creators = []
+    for k in (slots.RSocketBase, slots.RSocketClient, slots.RSocketServer):
+        for m in k.methods.values():
+            for n in walk_local(m.node):
+                if isinstance(n, ast.Call) and isinstance(n.func, ast.Name) and n.func.id == sc.name:
+                    creators.append((m, n))
+    if not creators:
+        raise AnalysisError('C13.g: nothing creates a StreamControl')
+    allowed = {'_reset_internals', '__init__'}
+    wrong = [(m, n) for m, n in creators if m.node.name not in allowed]
+    rep.add('C13.g', 'socket classes / the id allocator is replaced by the connection reset only', creators[0][0],
+            not wrong,
+            'StreamControl(...) is created in %s only' % ', '.join(sorted({m.node.name for m, _ in creators}))
+            if not wrong else
+            '%s (line %d) creates a new StreamControl: called on a live connection it restarts the ids at the first '
+            'id although the peer may still hold streams under them' % (wrong[0][0].short, wrong[0][1].lineno))
+
+
 ENTRY_POINTS = ('handle_request_response', 'handle_request_stream', 'handle_request_channel',
                 'handle_fire_and_forget')
 
@@ -601,4 +627,4 @@ def rule_e(ctx):
             why or 'the table is written only after stream_id == 0 was refused (%d paths)' % n)
 
 
-RULES = [('C13.a', rule_a), ('C13.b', rule_b), ('C13.c', rule_c), ('C13.d', rule_d), ('C13.d+C13.e', rule_e), ('C13.f', rule_f)]
+RULES = [('C13.a', rule_a), ('C13.b', rule_b), ('C13.c', rule_c), ('C13.d', rule_d), ('C13.d+C13.e', rule_e), ('C13.f', rule_f), ('C13.g', rule_g)]
